@@ -17,6 +17,8 @@ use crate::internals::intrinsics::{likely, unlikely};
 use crate::internals::macros::{invariant, optionally_unsafe};
 
 mod hashes;
+#[cfg(a4lg_ffuzzy_verif)]
+mod verif_hooks;
 
 pub use hashes::partial_fnv::PartialFNVHash;
 pub use hashes::rolling_hash::RollingHash;
